@@ -30,7 +30,7 @@ static struct ctx C[N];
 static char *stacks[N];
 static int nctx, cur, mode;
 static vrt_choose_fn choose_cb;
-static int preempt_budget, every_access, spurious_budget;
+static int preempt_budget, every_access, spurious_budget, max_nesting = 2;
 static int isr_enabled, isr_depth, in_rt;
 static ucontext_t main_uc;
 static uint64_t now_ctr;
@@ -295,7 +295,7 @@ static void sched_point(int kind)
 		return;
 	}
 	if (mode == VRT_ISR) {
-		if (isr_enabled && isr_depth < 2 && (kind != PT_PLAIN || every_access)) {
+		if (isr_enabled && isr_depth < max_nesting && (kind != PT_PLAIN || every_access)) {
 			int el[N], n = 0;
 			for (int h = 1; h < nctx; h++)
 				if (C[h].used && !C[h].fired && C[h].prio > C[cur].prio)
@@ -385,6 +385,7 @@ void vrt_reset(int m, vrt_choose_fn choose)
 	preempt_budget = -1;
 	every_access = 0;
 	spurious_budget = 0;
+	max_nesting = 2;
 	isr_enabled = 0;
 	isr_depth = 0;
 	in_rt = 0;
@@ -393,6 +394,7 @@ void vrt_reset(int m, vrt_choose_fn choose)
 	nalog = 0;
 	gen++;
 }
+void vrt_set_max_nesting(int n) { max_nesting = n; }
 void vrt_config(int pb, int ea, int sb)
 {
 	preempt_budget = pb;
